@@ -6,6 +6,35 @@ BASELINE = ("cd /repo && cargo nextest run --workspace --no-fail-fast --test-thr
             "|| cargo test --workspace --no-fail-fast --offline")
 
 CHECKS = {
+    "C11": dict(
+        category="exploration",
+        text=("Model-based: generated scripts of up to 60 operations {advance a waiting chain to its next gate, pause, resume, progress, "
+              "flush, inspect, wait_timeout, abort} run against the real Sampler (1..5 chains on 1..4 cores, with and without a progress "
+              "callback) under a gate scheduler built from the density's own callbacks: every chain blocks at its first density evaluation and "
+              "at every expand_vector call (draw computed, not yet recorded, trace lock not held) until the script releases it, so the script "
+              "owns the interleaving. An abstract model (per chain: position, recorded draws, read cursor into the broadcast command log) "
+              "predicts after every step whether a chain reaches its next gate, parks or finishes. Checked: every call returns within a "
+              "watchdog, progress counters equal the recorded trace at every quiescent point, inspect returns all chains with the recorded "
+              "lengths, a completed run records exactly num_tune+num_draws draws per chain in order and equals the uninterrupted reference, "
+              "an aborted run returns prefixes of the reference. A second part issues the commands at generated times against freely running "
+              "chains (delay plan inside the density)."),
+        design_ref="DESIGN.md section 3, C11",
+        note=("Interleavings inside blocking calls, mutex acquisition and rayon scheduling are not controlled; liveness is a 10 s watchdog per step "
+              "(the gated run is deterministic, so a miss is reported as a violation). No hook in nuts-rs is needed for the gates."),
+        technique="model-based testing: proptest-generated operation sequences interpreted against the real sampler under a harness-owned schedule, compared with an abstract protocol model",
+    ),
+    "C12": dict(
+        category="exploration",
+        text=("Same engine as C11 with scripts dominated by advance / pause / resume (repeated pauses, resume without pause, queued commands) "
+              "plus a complete enumeration, for 2 chains x 4 draws, of the gate positions of both chains at which pause is issued x {single, "
+              "double pause, resume-then-pause} x resume after 0/1/2 further advance rounds. The model's mailbox semantics give the exact draw "
+              "after which each chain must park - at most one further draw per command still queued for it - which is checked in both "
+              "directions: a chain predicted to run must reach its next gate, a chain predicted to park must not record or move (observed for "
+              "12 ms); chains that have not started do not draw while paused; the final trace equals the uninterrupted run."),
+        design_ref="DESIGN.md section 3, C12",
+        note="As C11. The negative check (a parked chain does not move) observes for 12 ms; a slower violation would be missed, never falsely reported.",
+        technique="model-based testing with exhaustive pause/resume placement for a small configuration and proptest-generated scripts beyond",
+    ),
     "C10": dict(
         category="exploration",
         text=("For generated settings (six presets), models, seeds and 1..8 chains the parallel Sampler is run several times with num_cores from "
